@@ -1896,6 +1896,12 @@ impl WorldlineRuntime {
             .ok_or(RuntimeError::UnknownWorldline(*worldline_id))
     }
 
+    /// Verification hook: overwrite the global tick (as in-crate overflow tests do).
+    #[cfg(feature = "echo_verif")]
+    pub(crate) fn verif_set_global_tick(&mut self, tick: GlobalTick) {
+        self.global_tick = tick;
+    }
+
     #[cfg(test)]
     pub(crate) fn strands_mut_for_tests(&mut self) -> &mut StrandRegistry {
         &mut self.strands
